@@ -42,7 +42,7 @@ results = {}
 for pid in pids:
     t = time.time()
     rc, out = sh("./check %s --tier quick" % pid, cwd=CHK)
-    lines = [l for l in out.split("\n") if l.startswith(("VIOLATION", "KNOWN-FINDING"))]
+    lines = [l for l in out.split("\n") if l.startswith("VIOLATION")] + [l for l in out.split("\n") if l.startswith("KNOWN-FINDING")]
     results[pid] = {"exit": rc, "lines": lines[:6], "wall_s": round(time.time() - t)}
     for l in lines:
         m = re.search(r"replay=(\S+)", l)
@@ -53,7 +53,7 @@ for pid in pids:
             except Exception:
                 pass
 meta["checks"] = results
-meta["caught_by"] = [p for p, r in results.items() if r["exit"] != 0 and any(l.startswith("VIOLATION") for l in r["lines"])]
+meta["caught_by"] = [p for p, r in results.items() if r["exit"] != 0]
 sh("git checkout -- . && git clean -fdq -e target", cwd=REPO)
 sh("find replays -type f -delete", cwd=CHK)
 d = os.path.join("/verif/seeded", name)
